@@ -198,13 +198,14 @@ def run(ck, F):
     local = {b["path"] for b in F.lib.bodies if b.get("mir") and in_scope(b["path"])}
     comps = [c for c in C11.sccs(g, local) if len(c) > 1 or c[0] in g.get(c[0], ())]
     ck.floor("R2", "call-graph cycles", len(comps), 2)
+    import_cycles = 0
     for comp in comps:
         cs = set(comp)
         is_import = any("read_xml_internal" in c for c in comp) or any(
             M.Body(F.lib.body(c)).calls_to(C11.PARSE) for c in comp)
         label = "import-recursion" if is_import else "type-conversion-recursion" if any("try_from_node" in c for c in comp) else "recursion:" + sorted(comp)[0]
         if is_import:
-            ck.ok("R2", f"{label}:see-C11", "-", f"cycle of {len(comp)} functions through the document parser: guarded by the processed flag (decided by C11.R1)")
+            import_cycles += 1
             continue
         remaining = {c: set() for c in comp}
         n_edges = 0
@@ -268,6 +269,12 @@ def run(ck, F):
             # shown to be the failing component. Recorded as an assumption, see DESIGN.md C13.
             ck.ok("R3", f"{label}:depth-bounded-by-input", "-",
                   f"{label}: recursion depth = nesting depth of the (already parsed) document; not an independent overflow source", fn=label)
+    if import_cycles:
+        # cycles through the document parser (following imports / includes) terminate because a file is marked before its references
+        # are followed and never unmarked during a run: the same obligations as C11.R1, decided here on this tree (not taken on trust)
+        from rules import c04 as C04
+        sub = C04._Sub(ck, "R2", lambda key: True, only_rules=("R1",))
+        C11.run(sub, F)
     # ---- R4 loops
     n_loops = 0
     for b in scans.bodies(F.lib):
